@@ -45,7 +45,7 @@ PROPERTIES = {
                       "step and through every getter, with a BTreeMap/BTreeSet reference model; states are de-duplicated, so the "
                       "bound is on distinct reachable states, not on samples.",
         "level_note": "Small scope: offsets around 0/4096/65536/262144/1MiB/2^62 slot boundaries, 5 lengths, depth 4-5 (quick) / 5-7 (thorough); "
-                      "interval/ack/window alphabets 0..8/0..10/16 values, explored to fixpoint. Content compared with a 64-bit position-dependent PRF. "
+                      "interval/ack/window alphabets 0..8/0..10/16 values, explored to fixpoint. Interval and ACK-range sets are additionally started from 15-20 preset disjoint intervals (limits/capacities 16-20; the structure switches from a linear scan to a binary search at 16 intervals) with every insert/remove of 1-3 values to depth 3. Content compared with a 64-bit position-dependent PRF. "
                       "Trusted: the harness reference models and rustc.",
         "design_ref": "DESIGN.md §3 C16",
         "assumptions": ["small-scope hypothesis over the listed alphabets", "reference models in engines/seqmc/src/c16.rs are correct"],
@@ -82,7 +82,7 @@ PROPERTIES = {
         "steps": [net("C09"), tx("txmc_recovery", "txmc_c09_recovery", expect=3)],
         "technique": "deviation-bounded exploration with a loss monitor over the event stream (RFC 9002 6.1 transcription)",
         "level_text": NET_NOTE + "Oracle LOSS (from packet_sent / ack_range_received / packet_lost / recovery_metrics events): a packet is declared lost only if a later-sent packet was acknowledged and (largest_acked - pn >= 3 or it was sent more than max(9/8*max(srtt, latest_rtt), 1 ms) ago, with the 1 ms clock granularity of s2n-quic's Timestamp::has_elapsed); never twice, never after it was acknowledged, never an unsent number; min_rtt <= latest sample; smoothed_rtt within the sample range.",
-        "level_note": "RTT values are the endpoint's own metrics events (the smaller of the values before/after the ACK that triggered the loss, since the estimator is updated before detection). MTU probes are exempt (own timer). txmc c09.recovery / c09.recovery_hs / c09.recovery_multipath: explicit-state search (depth 6 quick, 7 thorough) over the real recovery::Manager with real Path(s), CUBIC, RttEstimator and PTO state - application space, handshake space with discard, and two paths with RTT 1 s / 10 ms - against an independent RFC 9002 transcription (loss justification per sending path, PTO expiry marks nothing lost, exactly-once resolution, tracked set == unresolved set, per-path bytes_in_flight, RTT sample rules, PTO floor and doubling).",
+        "level_note": "Packet kinds of the handshake-space family: ack-eliciting (100 / 1200 bytes), ACK-only (not in flight) and padded ACK-only (ACK + PADDING: not ack-eliciting but congestion controlled). RTT values are the endpoint's own metrics events (the smaller of the values before/after the ACK that triggered the loss, since the estimator is updated before detection). MTU probes are exempt (own timer). txmc c09.recovery / c09.recovery_hs / c09.recovery_multipath: explicit-state search (depth 6 quick, 7 thorough) over the real recovery::Manager with real Path(s), CUBIC, RttEstimator and PTO state - application space, handshake space with discard, and two paths with RTT 1 s / 10 ms - against an independent RFC 9002 transcription (loss justification per sending path, PTO expiry marks nothing lost, exactly-once resolution, tracked set == unresolved set, per-path bytes_in_flight, RTT sample rules, PTO floor and doubling).",
         "design_ref": "DESIGN.md §3 C09",
         "assumptions": ["small-scope hypothesis", "event stream is faithful (events are emitted by the code under test)"],
     },
